@@ -139,7 +139,8 @@ CHECKS.update({
         design='7/C16', technique='Coq proof (unambiguity of prefix/suffix codes; polynomial path/work bounds) + pump timing'),
     'C17': dict(
         text='Coq proof over the REGENERATED split-level table: C17_create_unit (CREATE[ OR REPLACE] <header> BEGIN <block> END ; is one '
-             'statement for every block of the bracket language: nested BEGIN..END, IF/WHILE/FOR..END IF/END WHILE/END FOR, CASE..END, '
+             'statement for every block of the bracket language: nested BEGIN..END, IF/WHILE/FOR..END IF/END WHILE/END FOR, CASE..END expressions NESTED to any depth '
+             '(since the fix of finding F39: the splitter counts the open CASE expressions instead of keeping a flag), '
              'LOOP..END LOOP, inner DECLARE, parentheses, semicolons, any depth: induction over the grammar derivation with the splitter '
              'state generalised), C17_script/C17_partial (surrounding units returned separately and unchanged). The full grammar is REFUTED '
              'in five ways (FOR..LOOP..END LOOP, CASE..END CASE, DECLARE before BEGIN, block keyword before `(`/`.`, a qualified name ending '
